@@ -585,6 +585,7 @@ fn md5_feed_case<const CH: usize, const BITS: usize, const NS: usize, const NB: 
 }
 
 //@ prop: C03
+//@ tier: thorough
 //@ also: C14
 //@ drives: Context::new, Context::fill_interleaved, Context::fill_le_bytes, Context::md5_digest, Context::total_samples, Context::current_frame_number
 //@ bound: 1 channel x 2 samples at 12 bits (2 bytes per sample: sign extension of negative samples into the second byte); every sample value of the width; the integer delivery is split into two fills
@@ -600,6 +601,7 @@ fn c03_md5_input_bytes_12bit_mono() {
 }
 
 //@ prop: C03
+//@ tier: thorough
 //@ also: C14
 //@ drives: Context::new, Context::fill_interleaved, Context::fill_le_bytes, Context::md5_digest, Context::total_samples, Context::current_frame_number
 //@ bound: 2 channels x 1 inter-channel sample at 20 bits (3 bytes per sample); every sample value of the width
@@ -701,6 +703,7 @@ fn c03_md5_empty_input() {
 }
 
 //@ prop: C03
+//@ tier: thorough
 //@ expect: fail
 //@ drives: (reachability witness) md5_feed_case
 //@ bound: as c03_md5_input_bytes_12bit_mono
